@@ -424,7 +424,9 @@ Step(st, c0) ==
          ELSE [s EXCEPT !.buf = Append(s.buf, c)]
     [] m = "uriEsc" ->
          IF c \in {BSL, BT} THEN [Mode(s, "uri") EXCEPT !.buf = Append(s.buf, c)]
-         ELSE IF c \in {98, 102, 110, 114, 116} THEN [Mode(s, "uri") EXCEPT !.buf = Append(s.buf, EscChar(c))]
+         \* \b \f \n \r \t are string escapes; the grammar gives a URI none of them (liberal readers take them)
+         ELSE IF c \in {98, 102, 110, 114, 116} /\ ~s.strict
+              THEN [Mode(s, "uri") EXCEPT !.buf = Append(s.buf, EscChar(c))]
          ELSE IF c \in {58, 47, 63, 35, 91, 93, 64, 38, 61, 59} THEN
               \* \: \/ \? \# \[ \] \@ \& \= \; -- legal, but whether the backslash stays in the value is
               \* read differently by different Haystack implementations: denotation not judged (amb)
